@@ -594,6 +594,19 @@ COMPONENT_CASES = [
     ('reset', 'teleport', {'shape': [6, 6]}),
     ('reset', 'memory', {'shape': [7, 7], 'colors': ['RED', 'BLUE']}),
     ('reset', 'memory_rooms', {'shape': [9, 9], 'layout': [2, 2], 'colors': ['RED', 'BLUE', 'GREEN'], 'num_beacons': 1, 'num_exits': 2}),
+    # values the function itself refuses when called by hand (both routes must then refuse, or behave alike)
+    ('reset', 'memory', {'shape': [7, 7], 'colors': ['NONE', 'RED', 'GREEN']}),
+    ('reset', 'memory', {'shape': [5, 5], 'colors': ['RED', 'NONE', 'BLUE', 'YELLOW']}),
+    ('reset', 'memory_rooms', {'shape': [9, 9], 'layout': [2, 2], 'colors': ['NONE', 'RED', 'BLUE'], 'num_beacons': 1, 'num_exits': 2}),
+    ('reset', 'memory', {'shape': [6, 7], 'colors': ['RED', 'BLUE']}),
+    ('reset', 'memory', {'shape': [7, 7], 'colors': ['RED']}),
+    ('reset', 'dynamic_obstacles', {'shape': [4, 4], 'num_obstacles': 9}),
+    ('reset', 'crossing', {'shape': [6, 6], 'num_rivers': 1, 'object_type': 'Wall'}),
+    ('reset', 'keydoor', {'shape': [3, 3]}),
+    ('reset', 'rooms', {'shape': [5, 5], 'layout': [3, 3]}),
+    ('observation', 'partially_occluded', {'area': [[-2, 2], [-2, 2]]}),
+    ('observation', 'raytracing', {'area': [[-3, -1], [-1, 1]]}),
+    ('terminating', 'overlap', {'object_type': 'Wall'}),
 ]
 
 
